@@ -11,6 +11,8 @@ import XalanModel.C19.XMapProofs
 import XalanModel.C19.XBDequeProofs
 import XalanModel.C19.StrCacheProofs
 import XalanModel.C19.XArrProofs
+import XalanModel.C19.LruProofs
+import XalanModel.Generated.C19_Caches
 /-!
 # C19 — pluggable memory manager: balanced use; allocation failure is survivable
 
@@ -615,6 +617,54 @@ theorem array_allocator_clear_leaks_counterexample :
      (r.1.destroy r.2).live.length = 2 ∧ r.1.lost.length = 2) ∧
     (let r := XArr.run true [.alloc 2, .clear, .alloc 3] { bs := 4 } {}
      (r.1.destroy r.2).Balanced) := by
+  decide
+
+/-- the eviction shape the translator read for a list cache, as the model's shape -/
+def lruShapeOf (c : XalanModel.Generated.C19Caches.Cache) : LruShape := ⟨c.destroyEnd == "front", c.popEnd == "front"⟩
+
+/-- **Every bounded cache of the working tree is crossed** (over the regenerated table): each enumerator that bounds a cache
+(string cache, the four XObject factory caches, node-list cache, run-time pattern cache, ICU DecimalFormat cache, ICU collator
+cache — and any new one the translator finds) has a scenario of gen/corpus/c19 that drives at least bound + 2 distinct keys /
+simultaneously borrowed objects through it. -/
+theorem all_bounded_caches_crossed :
+    XalanModel.Generated.C19Caches.caches.all (fun c => c.scenario != "" && decide (c.keys ≥ c.bound + 2)) = true := by
+  decide
+
+/-- **Front/back consistency of every evicting cache as written** (over the regenerated table): the entry whose object is
+destroyed is the entry that is removed, and new entries go in at the other end. -/
+theorem all_evicting_caches_consistent :
+    XalanModel.Generated.C19Caches.caches.all
+      (fun c => !c.evicts || (c.destroyEnd == c.popEnd && c.insertEnd != c.popEnd)) = true := by
+  decide
+
+/-- **Eviction destroys the evicted entry, and only it.**  For every evicting list cache of the working tree (shape and bound
+as the translator read them), every history of uses (hits splice to the front, misses create an object and, when the cache is
+full, evict), under any one-shot refusal: no object is destroyed twice or while dead, the objects alive are exactly the objects
+the cache names, and the destructor leaves nothing. -/
+theorem eviction_destroys_the_evicted_entry (c : XalanModel.Generated.C19Caches.Cache)
+    (hc : c ∈ XalanModel.Generated.C19Caches.caches) (he : c.evicts = true) (hl : c.popEnd = "back")
+    (keys : List Nat) (k : Nat) :
+    let r := Lru.run (lruShapeOf c) keys { bound := c.bound } { failAt := k }
+    r.2.bad = 0 ∧ r.2.live.Perm r.1.objs ∧ (r.1.destroy r.2).Balanced := by
+  have hs : ∀ c ∈ XalanModel.Generated.C19Caches.caches, c.evicts = true → c.popEnd = "back" → lruShapeOf c = .asWritten := by
+    decide
+  intro r
+  have hi : Ledger.Holds r.2 r.1.objs [] 0 := by
+    have := Lru.run_inv keys { bound := c.bound } { failAt := k } [] 0 ⟨fun a => by simp [Lru.objs], rfl⟩
+    simpa [r, hs c hc he hl] using this
+  have hd := Ledger.holds_nil_perm (Lru.destroy_spec r.1 r.2 [] 0 hi)
+  refine ⟨hi.2, List.perm_iff_count.mpr (fun a => by simpa using hi.1 a), List.Perm.eq_nil hd.1, hd.2⟩
+
+/-- **Mutation "the guard takes front().m_obj, pop_back() still removes the back entry"** (seeded J): bound 2, third distinct
+key: the most recently used object is destroyed but stays cached (a later hit returns the dead object), the evicted one is
+dropped alive; the destructor then destroys the dead object again (`bad = 1`) and one block stays outstanding.  As written the
+same history is balanced. -/
+theorem lru_destroy_front_pop_back_counterexample :
+    (let r := Lru.run ⟨true, false⟩ [1, 2, 3] { bound := 2 } {}
+     r.1.entries.map (·.1) = [3, 2] ∧ r.2.live.length = 2 ∧ ¬ ((r.1.entries.map (·.2)).all (· ∈ r.2.live)) ∧
+     (r.1.destroy r.2).bad = 1 ∧ (r.1.destroy r.2).live.length = 1) ∧
+    (let r := Lru.run .asWritten [1, 2, 3] { bound := 2 } {}
+     r.1.entries.map (·.1) = [3, 2] ∧ (r.1.destroy r.2).Balanced) := by
   decide
 
 /-- non-vacuity: the hypotheses of the list/vector theorems are met by non-trivial reachable
